@@ -374,7 +374,7 @@ def shard(tier, seed, n, mode):
 
 def run(tier, seed):
     t0 = time.time()
-    total = 5000 if tier == 'quick' else 200000
+    total = 12000 if tier == 'quick' else 200000
     nsh = common.NPROC - 1
     jobs = [dict(tier=tier, seed=seed, n=0, mode='tables'), dict(tier=tier, seed=seed, n=300 if tier == 'quick' else 5000, mode='overlong')]
     jobs += [dict(tier=tier, seed=s, n=total // nsh, mode='values') for s in common.shard_seeds(seed, nsh)]
